@@ -38,6 +38,10 @@ pub struct Case {
     /// every n-th operation of the writer is a Delete instead of an overwrite (0 = never)
     #[serde(default)]
     pub delete_every: u32,
+    /// every n-th operation (that is not a delete) is an UpdateMetadata(replace) carrying the
+    /// operation number as the new metadata version; the vector stays (0 = never)
+    #[serde(default)]
+    pub update_every: u32,
 }
 
 pub struct C05Srv;
@@ -70,6 +74,27 @@ fn is_delete(case: &Case, op: u32) -> bool {
     case.delete_every > 0 && op % case.delete_every == 0
 }
 
+fn is_update(case: &Case, op: u32) -> bool {
+    !is_delete(case, op) && case.update_every > 0 && op % case.update_every == 0
+}
+
+/// state after each operation of the single sequential writer: None = absent, Some((vector
+/// version, metadata version)); index 0 = before the first operation
+fn states(case: &Case) -> Vec<Option<(u32, u32)>> {
+    let mut st = vec![None];
+    for j in 1..=case.writes {
+        let prev: Option<(u32, u32)> = *st.last().unwrap();
+        st.push(if is_delete(case, j) {
+            None
+        } else if is_update(case, j) {
+            prev.map(|(v, _)| (v, j))
+        } else {
+            Some((j, j))
+        });
+    }
+    st
+}
+
 #[derive(Debug)]
 struct Obs {
     kind: Reader,
@@ -92,7 +117,7 @@ impl Prop for C05Srv {
         4
     }
     fn rule(&self) -> String {
-        "real server; one writer client running 150-600 sequential operations on one id (overwrites with the version in vector and metadata; every 2nd/3rd/7th operation a delete in 3 cases of 5) against 1-2 reader clients (Query / BulkQuery with embeddings), optional flusher client; non-trivial = at least 20 reads completed while the writer was running and at least two distinct versions were observed; distinct = hash of decoded case".into()
+        "real server; one writer client running 150-600 sequential operations on one id (overwrites with the version in vector and metadata; every 2nd/3rd/7th operation a delete in 3 cases of 5, every 2nd/3rd/5th remaining one a metadata-only update in 3 of 5) against 1-2 reader clients (Query / BulkQuery with embeddings), optional flusher client; non-trivial = at least 20 reads completed while the writer was running and at least two distinct versions were observed; distinct = hash of decoded case".into()
     }
     fn decode(&self, raw: &Raw, _tier: Tier) -> Case {
         let mut t = Tape::new(&raw.head);
@@ -104,7 +129,8 @@ impl Prop for C05Srv {
         let flusher = t.chance(96);
         let cosine = t.chance(64);
         let delete_every = t.pick(&[0u32, 0, 2, 3, 7]);
-        Case { writes, readers, flusher, cosine, delete_every }
+        let update_every = t.pick(&[0u32, 0, 2, 3, 5]);
+        Case { writes, readers, flusher, cosine, delete_every, update_every }
     }
 
     fn run(&self, case: &Case, env: &CaseEnv) -> Result<CaseReport, Failure> {
@@ -135,6 +161,13 @@ impl Prop for C05Srv {
                             match c.delete(with_key(pb::DeleteRequest { doc_id: ID, namespace: String::new() }, None)).await {
                                 Ok(_) => acked.store(ver, Ordering::SeqCst),
                                 Err(s) => return Err(format!("delete {} failed: {:?} {}", ver, s.code(), s.message())),
+                            }
+                            continue;
+                        }
+                        if is_update(case, ver) {
+                            match c.update_metadata(with_key(pb::UpdateMetadataRequest { doc_id: ID, metadata, merge: false, namespace: String::new() }, None)).await {
+                                Ok(_) => acked.store(ver, Ordering::SeqCst),
+                                Err(s) => return Err(format!("metadata update {} failed: {:?} {}", ver, s.code(), s.message())),
                             }
                             continue;
                         }
@@ -224,40 +257,45 @@ impl Prop for C05Srv {
         }
         let mut versions = std::collections::BTreeSet::new();
         let mut absent_seen = 0u64;
+        let st = states(case);
         for o in &all_obs {
             let ctx = |msg: &str| format!("{:?} read (began after write {} was acknowledged, returned after write {} was sent): {}", o.kind, o.acked_before, o.sent_after, msg);
-            // single sequential writer: the state after operation j is "absent" if j is a delete,
-            // otherwise version j; a read overlapping operations acked_before+1 ..= sent_after may
-            // return the state after any j in acked_before ..= sent_after
-            let window = o.acked_before..=o.sent_after;
-            if !o.found {
-                if !window.clone().any(|j| is_delete(case, j)) {
-                    return Err(Failure::new("read_misses_live_document", ctx("found=false although no delete lies in that window")).with_sig(json!({"kind": "read_misses_live_document", "level": "server", "rpc": format!("{:?}", o.kind)})));
+            // single sequential writer: a read overlapping operations acked_before+1 ..= sent_after
+            // may return the state after any operation j in acked_before ..= sent_after
+            let lo = o.acked_before as usize;
+            let hi = (o.sent_after as usize).min(st.len() - 1);
+            let observed: Option<(u32, u32)> = if o.found {
+                match (o.vec_ver, o.meta_ver) {
+                    (Some(v), Some(m)) => Some((v, m)),
+                    _ => return Err(Failure::new("read_returns_unwritten_value", ctx(&format!("vector version {:?}, metadata version {:?}", o.vec_ver, o.meta_ver))).with_sig(json!({"kind": "read_returns_unwritten_value", "level": "server"}))),
                 }
+            } else {
+                None
+            };
+            if !st[lo..=hi].contains(&observed) {
+                let rpc = format!("{:?}", o.kind);
+                return Err(match observed {
+                    None => Failure::new("read_misses_live_document", ctx("found=false although the document exists after every operation in that window")).with_sig(json!({"kind": "read_misses_live_document", "level": "server", "rpc": rpc})),
+                    Some((v, m)) if !st.contains(&observed) => {
+                        Failure::new("torn_read", ctx(&format!("the vector is the one of write {}, the metadata the one of operation {}; no operation of the writer ever produced that pair", v, m))).with_sig(json!({"kind": "torn_read", "level": "server", "rpc": rpc}))
+                    }
+                    Some((v, m)) if st[..lo].contains(&observed) => Failure::new("stale_read", ctx(&format!("returned (vector {}, metadata {}), a state that had been replaced before the read began", v, m))).with_sig(json!({"kind": "stale_read", "level": "server", "rpc": rpc})),
+                    Some((v, m)) => Failure::new("read_returns_unwritten_value", ctx(&format!("returned (vector {}, metadata {}), a state produced only by an operation that had not been sent", v, m))).with_sig(json!({"kind": "read_returns_unwritten_value", "level": "server"})),
+                });
+            }
+            let Some((vv, _)) = observed else {
                 absent_seen += 1;
                 continue;
-            }
-            let (Some(vv), Some(mv)) = (o.vec_ver, o.meta_ver) else {
-                return Err(Failure::new("read_returns_unwritten_value", ctx(&format!("vector version {:?}, metadata version {:?}", o.vec_ver, o.meta_ver))).with_sig(json!({"kind": "read_returns_unwritten_value", "level": "server"})));
             };
-            if vv != mv {
-                return Err(Failure::new("torn_read", ctx(&format!("the vector is the one of write {}, the metadata the one of write {}", vv, mv))).with_sig(json!({"kind": "torn_read", "level": "server", "rpc": format!("{:?}", o.kind)})));
-            }
-            if is_delete(case, vv) || vv == 0 {
-                return Err(Failure::new("read_returns_unwritten_value", ctx(&format!("returned version {} which was never written", vv))).with_sig(json!({"kind": "read_returns_unwritten_value", "level": "server"})));
-            }
-            if vv < o.acked_before {
-                return Err(Failure::new("stale_read", ctx(&format!("returned version {} (a later write or delete had completed before the read began)", vv))).with_sig(json!({"kind": "stale_read", "level": "server", "rpc": format!("{:?}", o.kind)})));
-            }
-            if vv > o.sent_after {
-                return Err(Failure::new("read_returns_unwritten_value", ctx(&format!("returned version {} which had not been sent", vv))).with_sig(json!({"kind": "read_returns_unwritten_value", "level": "server"})));
-            }
             versions.insert(vv);
         }
         rep.count("reads_during_writes", all_obs.len() as u64);
         rep.count("reads_answering_absent_inside_a_delete_window", absent_seen);
         if case.delete_every > 0 {
             rep.label("writer_with_deletes");
+        }
+        if case.update_every > 0 {
+            rep.label("writer_with_metadata_updates");
         }
         rep.count("distinct_versions_observed", versions.len() as u64);
         if all_obs.len() >= 20 && versions.len() >= 2 {
